@@ -1,15 +1,18 @@
 package sod
 
 import (
+	"bytes"
 	"encoding/json"
 	"errors"
 	"fmt"
 	"regexp"
+	"strconv"
 	"time"
 )
 
 var (
-	ErrUnknownKeyType = errors.New("unknown key type")
+	ErrUnknownKeyType  = errors.New("unknown key type")
+	ErrBadIndexedField = errors.New("bad indexed field")
 )
 
 type indexedField struct {
@@ -26,12 +29,26 @@ func (f *indexedField) MarshalJSON() ([]byte, error) {
 
 func (f *indexedField) UnmarshalJSON(data []byte) error {
 	var tuple []interface{}
-	if err := json.Unmarshal(data, &tuple); err != nil {
+	// numbers are kept as json.Number so that 64 bits integers
+	// do not loose precision going through a float64
+	dec := json.NewDecoder(bytes.NewReader(data))
+	dec.UseNumber()
+	if err := dec.Decode(&tuple); err != nil {
 		return err
 	}
+	if len(tuple) != 2 {
+		return fmt.Errorf("%w: indexed field must be a [value, object-id] tuple", ErrBadIndexedField)
+	}
+	id, ok := tuple[1].(json.Number)
+	if !ok {
+		return fmt.Errorf("%w: object-id must be a number", ErrBadIndexedField)
+	}
+	objid, err := strconv.ParseUint(id.String(), 10, 64)
+	if err != nil {
+		return fmt.Errorf("%w: %s", ErrBadIndexedField, err)
+	}
 	f.Value = tuple[0]
-	// Json unmarshals integer to interface{} as float64
-	f.ObjectId = uint64(tuple[1].(float64))
+	f.ObjectId = objid
 	return nil
 }
 
@@ -76,15 +93,30 @@ func newIndexedField(value interface{}, objid uint64) (*indexedField, error) {
 }
 
 func (f *indexedField) valueTypeFromString(t string) {
-	// we cast everything to float64 because json unmarshal interface{}
-	// to float64 and that is a current limitation of the indexing
+	// numbers decoded from json are json.Number (see UnmarshalJSON)
+	// values built in memory already have their final type
+	if n, ok := f.Value.(json.Number); ok {
+		var err error
+		switch t {
+		case "float64":
+			f.Value, err = strconv.ParseFloat(n.String(), 64)
+		case "int64":
+			f.Value, err = strconv.ParseInt(n.String(), 10, 64)
+		case "uint64":
+			f.Value, err = strconv.ParseUint(n.String(), 10, 64)
+		}
+		if err != nil {
+			panic(fmt.Errorf("%w %s: %s", ErrUnknownKeyType, t, err))
+		}
+	}
+
 	switch t {
 	case "float64":
 		f.Value = f.Value.(float64)
 	case "int64":
-		f.Value = int64(f.Value.(float64))
+		f.Value = f.Value.(int64)
 	case "uint64":
-		f.Value = uint64(f.Value.(float64))
+		f.Value = f.Value.(uint64)
 	case "string":
 	default:
 		panic(fmt.Errorf("%w %s", ErrUnknownKeyType, t))
